@@ -311,31 +311,23 @@ def r4(db, rep):
         rep.analysis_broken("do_insert: parameter `expected` not found")
         return
     evar = ev[0]["var"]
-    # the chain under `iter != end`
-    outer = [n for n in f["body"].get("c", []) if n["k"] == "IfStmt"]
-    if not outer:
-        rep.analysis_broken("do_insert: lookup guard not found")
-        return
-    inner_root = [x for x in outer[0]["c"] if x is not None][1]
+    # the function is EXECUTED for an entry that exists (`iter != end`), s stored messages and expected index e: whatever
+    # nesting / early returns / named locals it is written with, the effects on the stored list are collected
 
-    def effects(stmt, env, tf):
-        """walk if/else chains concretely; return set of effects"""
+    def effects(_root, env, tf):
+        def tf2(x, st):
+            if x["k"] == "CXXOperatorCallExpr" and x.get("op") in ("!=", "==") and len(x["c"]) == 3 and \
+                    any(y["k"] == "CXXMemberCallExpr" and y.get("cname") == "end" for y in facts.walk(x)):
+                return 1 if x["op"] == "!=" else 0
+            return tf(x)
         out = set()
-        if stmt is None:
-            return out
-        k = stmt["k"]
-        if k == "CompoundStmt":
-            for x in stmt.get("c", []):
-                out |= effects(x, env, tf)
-            return out
-        if k == "IfStmt":
-            real = [x for x in stmt["c"] if x is not None]
-            c = ieval.ev(f, real[0], dict(env, __termfn__=tf), {})
-            return effects(real[1] if c else (real[2] if len(real) > 2 else None), env, tf)
-        for x in facts.walk(stmt):
-            if x["k"] == "CXXMemberCallExpr" and x.get("cname") in ("push_back", "clear", "erase", "assign", "pop_back"):
-                out.add(x["cname"])
+        for k_, n_ in ieval.trace(f, f["body"], dict(env, __termfn2__=tf2)):
+            if k_ in ("call", "other", "assign"):
+                for x in facts.walk(n_):
+                    if x["k"] == "CXXMemberCallExpr" and x.get("cname") in ("push_back", "clear", "erase", "assign", "pop_back"):
+                        out.add(x["cname"])
         return out
+    inner_root = None
     bad = None
     try:
         for e in range(0, 4):
